@@ -16,6 +16,7 @@ import (
 	"strconv"
 	"strings"
 	"testing"
+	"time"
 
 	"pgregory.net/rapid"
 
@@ -243,7 +244,16 @@ func genArgWord(t *rapid.T, depth int, repl bool) string {
 	if !repl {
 		toks = append(toks, "/", "a/b", ":", "=", "+", "#", "%")
 	} else {
-		toks = append(toks, `\/`)
+		// no list expansions in a replacement string: bash 5.2.15 leaks its
+		// internal CTLNUL byte (\x7f) for an empty element of "${a[@]}"
+		// there, so it cannot judge that form.
+		kept := toks[:0:0]
+		for _, tk := range toks {
+			if !strings.Contains(tk, "@") && !strings.Contains(tk, "[*]") && !strings.Contains(tk, "$*") {
+				kept = append(kept, tk)
+			}
+		}
+		toks = append(kept, `\/`)
 	}
 	n := rapid.IntRange(0, 3).Draw(t, "nword")
 	var sb strings.Builder
@@ -289,9 +299,10 @@ func sliceOffset(s string) string {
 	return s
 }
 
+// rapid favours the low indices of SampledFrom, so "plain" comes last.
 var families = []string{
-	"plain", "default", "default", "assign", "error", "alt", "length", "slice", "slice", "remove", "remove",
-	"replace", "replace", "case", "indirect", "prefix", "keys", "transform", "quote",
+	"default", "remove", "replace", "slice", "case", "alt", "assign", "error", "length", "default", "remove",
+	"replace", "slice", "indirect", "prefix", "keys", "transform", "quote", "plain",
 }
 
 type nameRef struct {
@@ -573,7 +584,7 @@ func (o outcome) String() string {
 }
 
 func runInterp(script, dir string) outcome {
-	r := oracle.RunInterp(script, oracle.InterpOpts{Dir: dir})
+	r := oracle.RunInterp(script, oracle.InterpOpts{Dir: dir, Timeout: 60 * time.Second})
 	o := outcome{out: string(r.Stdout), status: r.Status}
 	switch {
 	case r.ParseErr != nil:
@@ -628,7 +639,7 @@ func check(c Case) (res vh.Result) {
 	if len(subs) == 0 {
 		return vh.Result{Skipped: true}
 	}
-	bres, err := oracle.Batch(scripts, oracle.Opts{Dir: dir})
+	bres, err := oracle.Batch(scripts, oracle.Opts{Dir: dir, Timeout: batchTimeout})
 	if err != nil {
 		return vh.Result{Skipped: true, Classes: []string{"infra:batch"}}
 	}
@@ -670,3 +681,8 @@ func check(c Case) (res vh.Result) {
 var prop = vh.Prop[Case]{ID: "C21", Gen: gen, Check: check}
 
 func TestC21(t *testing.T) { vh.Run(t, prop) }
+
+// batchTimeout bounds one bash process evaluating a whole batch. It is
+// generous because a loaded machine makes every fork slow; sub-cases left
+// without a result are counted as infra:batch-aborted, never as a pass.
+const batchTimeout = 120 * time.Second
